@@ -249,19 +249,33 @@ func condFacts(b *ssa.BasicBlock) []Fact {
 			var common map[string]Fact
 			all := true
 			n := 0
+			if b, isB := phi.Type().Underlying().(*types.Basic); !isB || b.Kind() != types.Bool {
+				continue
+			}
 			for i, e := range phi.Edges {
-				cv, isC := e.(*ssa.Const)
-				if !isC || cv.Value == nil || cv.Value.Kind() != constant.Bool {
-					all = false
-					break
-				}
-				if constant.BoolVal(cv.Value) != ft.Truth {
-					continue
+				var own *Fact
+				if cv, isC := e.(*ssa.Const); isC {
+					if cv.Value == nil || cv.Value.Kind() != constant.Bool {
+						all = false
+						break
+					}
+					if constant.BoolVal(cv.Value) != ft.Truth {
+						continue
+					}
+				} else {
+					// `a && b && c`: the value of the last operand arrives on its own edge; there the phi has the wanted
+					// truth exactly when that operand has it
+					own = &Fact{Cond: e, Truth: ft.Truth, Edge: -1}
 				}
 				n++
 				pred := phi.Block().Preds[i]
 				fs := map[string]Fact{}
-				for _, f2 := range append(condFacts(pred), edgeFact(pred, phi.Block())...) {
+				list := append(condFacts(pred), edgeFact(pred, phi.Block())...)
+				if own != nil {
+					oc, ot := stripNot(own.Cond, own.Truth)
+					list = append(list, Fact{Cond: oc, Truth: ot, Edge: -1})
+				}
+				for _, f2 := range list {
 					fs[canonCond(f2.Cond, f2.Truth)] = f2
 				}
 				if common == nil {
